@@ -31,7 +31,7 @@ def ev(e, env):
         raise ModelError(f'minieval: attribute {ast.unparse(e)}')
     if isinstance(e, ast.Subscript):
         b = ev(e.value, env)
-        if not isinstance(b, (list, tuple, dict)):
+        if not isinstance(b, (list, tuple, dict, str)):
             raise ModelError(f'minieval: subscript on {type(b).__name__}: {ast.unparse(e)}')
         if isinstance(e.slice, ast.Slice):
             lo = None if e.slice.lower is None else ev(e.slice.lower, env)
@@ -91,7 +91,13 @@ def ev(e, env):
         return out
     if isinstance(e, ast.Call) and isinstance(e.func, ast.Name) and e.func.id in _CALLS and not e.keywords:
         return _CALLS[e.func.id](*[ev(a, env) for a in e.args])
-    if isinstance(e, ast.Call) and isinstance(e.func, ast.Attribute) and e.func.attr in ('startswith', 'endswith', 'lower', 'upper') and not e.keywords:
+    if isinstance(e, ast.Call) and isinstance(e.func, ast.Attribute) and isinstance(e.func.value, ast.Name) and e.func.value.id == 're' \
+            and e.func.attr in ('sub', 'split', 'match', 'fullmatch', 'search', 'findall') and not e.keywords:
+        import re as _re
+        return getattr(_re, e.func.attr)(*[ev(a, env) for a in e.args])   # the regular-expression engine applied to constant data
+    if isinstance(e, ast.Call) and isinstance(e.func, ast.Attribute) and e.func.attr in (
+            'startswith', 'endswith', 'lower', 'upper', 'find', 'rfind', 'index', 'partition', 'rpartition', 'strip', 'lstrip', 'rstrip', 'split',
+            'replace', 'isspace', 'count') and not e.keywords:
         b = ev(e.func.value, env)
         if isinstance(b, str):
             return getattr(b, e.func.attr)(*[ev(a, env) for a in e.args])
